@@ -9,7 +9,7 @@
  * Tolerances are eps x data scale x amplification (see the clause comments). asan build. */
 #include "drv_util.h"
 
-static long ncases(int tier) { return tier ? 400000 : 30000; }
+static long ncases(int tier) { return tier ? 400000 : 60000; }
 
 /* GEN-BEGIN (generator shared verbatim by c03.c and c04.c) */
 #define EPS 2.220446049250313e-16
